@@ -48,7 +48,10 @@ Garbage(h, m) == h.mode = "ss" /\ m.neg
 
 BookChecks(h, p, c) ==
   \* (the first step of a run whose initial clock is not the trace's has no previous time to be compared with)
-  << <<"KinTime", (c.k = 1 /\ ~h.t0sync) \/ KinTimeOf(h, p, c)>>, <<"KinOffset", KinOffsetOf(h, p, c)>>,
+  \* (likewise a rolling start under the default initial speed: step 1 integrates the trace's speeds, and the saved
+  \* initial speed is not the trace's; the power relations of step 1 are stated against the trace and stay judged)
+  << <<"KinTime", (c.k = 1 /\ ~h.t0sync) \/ KinTimeOf(h, p, c)>>,
+     <<"KinOffset", (c.k = 1 /\ ~h.v0sync) \/ KinOffsetOf(h, p, c)>>,
      <<"KinBack", KinBackOf(h, c)>>, <<"KinDist", KinDistOf(h, p, c)>> >>
 KinChecks(h, p, c) ==
   BookChecks(h, p, c) \o
@@ -86,9 +89,11 @@ Step ==
         ELSE IF c.k = 0
         THEN \* the initial state: position bookkeeping only (nothing has been computed yet): rear = front - length,
              \* no distance travelled; it agrees with the first trace point in speed, and in time when the run was
-             \* given the trace's clock origin (h.t0sync; a run started with the default clock is judged from step 1)
+             \* given the trace's clock origin / first speed (h.t0sync, h.v0sync; a run started with the default clock or
+             \* as a rolling start under the default speed 0 is judged from step 1)
              Report(Names(<< <<"KinBack", KinBackOf(h, c)>>, <<"KinDist", Abs(c.dist) <= Q(h)>> >>
-                          \o (IF ss THEN << <<"FollowTime", h.t0sync => FollowTimeOf(h, c)>>, <<"FollowSpeed", FollowSpeedOf(h, c)>> >> ELSE <<>>)))
+                          \o (IF ss THEN << <<"FollowTime", h.t0sync => FollowTimeOf(h, c)>>,
+                                         <<"FollowSpeed", h.v0sync => FollowSpeedOf(h, c)>> >> ELSE <<>>)))
         ELSE IF Garbage(h, mb) \/ (ss /\ NegAt(h, c.k))
         THEN \* an accepted step that had to be refused, or the rest of such a run
              Report(Names(<< <<"NegSpeedRejected", ~NegAt(h, c.k)>> >> \o BookChecks(h, p, c)))
